@@ -2,6 +2,7 @@ package props
 
 import (
 	"fmt"
+	"go/token"
 	"go/types"
 	"sort"
 	"strings"
@@ -513,6 +514,132 @@ func C16(p *ir.Program, r *report.R) {
 
 	// a registered type that does not fit the field it is decoded into is rejected, not a reflect panic (shared with C11)
 	typeChosenByInputFits(c)
+
+	// ---- what is queued for the consensus routine has a payload ------------------------------------------------------
+	// The decoder happily produces VoteMessage{Vote: nil}. The consensus routine dereferences the payload
+	// without a test (addVote reads vote.Height) and a panic THERE ends consensus for good; a panic in the
+	// reactor's Receive only drops the peer (the connection recovers). So every message Receive puts on
+	// peerMsgQueue has had its payload pointer dereferenced in Receive first, on every path: directly
+	// (msg.Part.Index) or by a callee that dereferences that parameter on all of its paths (SetHasVote,
+	// SetHasProposal). A helper that returns early on a nil payload and lets the caller enqueue breaks it.
+	{
+		recv := p.Func("consensus", "ConsensusReactor.Receive")
+		derefMemo := map[string]bool{}
+		var derefsParam func(fn *ssa.Function, idx, depth int) bool
+		derefsParam = func(fn *ssa.Function, idx, depth int) bool {
+			if fn == nil || fn.Blocks == nil || idx >= len(fn.Params) || depth > 3 {
+				return false
+			}
+			k := fmt.Sprintf("%s#%d", ir.FuncName(fn), idx)
+			if v, ok := derefMemo[k]; ok {
+				return v
+			}
+			derefMemo[k] = false
+			q := fn.Params[idx]
+			uses := func(in ssa.Instruction) bool {
+				switch x := in.(type) {
+				case *ssa.FieldAddr:
+					return x.X == q
+				case *ssa.Field:
+					return x.X == q
+				case *ssa.UnOp:
+					return x.Op == token.MUL && x.X == q
+				case *ssa.Call:
+					if callee := x.Call.StaticCallee(); callee != nil {
+						for i, a := range x.Call.Args {
+							if a == q && derefsParam(callee, i, depth+1) {
+								return true
+							}
+						}
+					}
+				}
+				return false
+			}
+			found, _, _ := ir.FindPath(ir.PathQuery{From: ir.Entry(fn), Target: ir.IsReturn, Avoid: uses})
+			derefMemo[k] = !found
+			return !found
+		}
+		nQ := 0
+		ir.Instrs(recv, func(in ssa.Instruction) {
+			snd, ok := in.(*ssa.Send)
+			if !ok || !strings.HasSuffix(ir.Render(snd.Chan), ".peerMsgQueue") {
+				return
+			}
+			// the message stored into msgInfo.Msg
+			var msg ssa.Value
+			if ld, isLd := snd.X.(*ssa.UnOp); isLd {
+				if al, isAl := ld.X.(*ssa.Alloc); isAl && al.Referrers() != nil {
+					for _, u := range *al.Referrers() {
+						if fa, isFA := u.(*ssa.FieldAddr); isFA && fa.Field == 0 && fa.Referrers() != nil {
+							for _, uu := range *fa.Referrers() {
+								if st, isSt := uu.(*ssa.Store); isSt {
+									msg = st.Val
+								}
+							}
+						}
+					}
+				}
+			}
+			for {
+				if mi, isMI := msg.(*ssa.MakeInterface); isMI {
+					msg = mi.X
+					continue
+				}
+				if ci, isCI := msg.(*ssa.ChangeInterface); isCI {
+					msg = ci.X
+					continue
+				}
+				break
+			}
+			if msg == nil {
+				r.Undecided("K9", "consensus.(*ConsensusReactor).Receive/enqueue/message", p.InstrPos(in), "message of a peerMsgQueue send not identified")
+				return
+			}
+			pt, isPtr := msg.Type().(*types.Pointer)
+			if !isPtr {
+				return
+			}
+			stT, isSt := pt.Elem().Underlying().(*types.Struct)
+			if !isSt {
+				return
+			}
+			for i := 0; i < stT.NumFields(); i++ {
+				fp, isP := stT.Field(i).Type().(*types.Pointer)
+				if !isP {
+					continue
+				}
+				if _, isS := fp.Elem().Underlying().(*types.Struct); !isS {
+					continue
+				}
+				nQ++
+				payload := ir.Render(msg) + "." + stT.Field(i).Name()
+				deref := func(x ssa.Instruction) bool {
+					switch y := x.(type) {
+					case *ssa.FieldAddr:
+						return ir.Render(y.X) == payload
+					case *ssa.Field:
+						return ir.Render(y.X) == payload
+					case *ssa.Call:
+						if callee := y.Call.StaticCallee(); callee != nil && !ir.IsTransparentHelper(callee) {
+							for j, a := range y.Call.Args {
+								if ir.Render(a) == payload && derefsParam(callee, j, 0) {
+									return true
+								}
+							}
+						}
+					}
+					return false
+				}
+				found, _, tr := ir.FindPath(ir.PathQuery{From: ir.Entry(recv), Target: func(x ssa.Instruction) bool { return x == in }, Avoid: deref})
+				d := "enqueued only after " + short(payload, 80) + " was dereferenced in Receive (a nil payload panics here, where only the peer is dropped)"
+				if found {
+					d += fmt.Sprintf("; a path reaches the send without it: blocks %v", tr)
+				}
+				r.Check("K9", "consensus.(*ConsensusReactor).Receive/enqueue/"+typeShortT(pt.Elem())+"."+stT.Field(i).Name()+"/payload-dereferenced-first", p.InstrPos(in), !found, d)
+			}
+		})
+		r.Check("K9", "consensus.(*ConsensusReactor).Receive/enqueue/sites", p.Pos(recv.Pos()), nQ >= 3, fmt.Sprintf("%d enqueued payload pointers (proposal, block part, vote)", nQ))
+	}
 	// a failed decode leaves an optional pointer as it was: addProposalBlockPart decodes straight into
 	// cs.ProposalBlock and relies on the pointer staying nil when the bytes are not a block (a half-filled
 	// block with nil parts would pass isProposalComplete and be dereferenced by the next step)
